@@ -1,0 +1,62 @@
+package ot
+
+import (
+	"errors"
+
+	"github.com/taurusgroup/multi-party-sig/internal/params"
+)
+
+// The setups are part of the Doerner key material and must survive serialization with it.
+// Their fields are fixed size arrays, so the encoding is just their concatenation.
+
+const correOTSendSetupSize = params.OTBytes + params.OTParam*params.OTBytes
+
+// MarshalBinary implements encoding.BinaryMarshaler.
+func (s *CorreOTSendSetup) MarshalBinary() ([]byte, error) {
+	out := make([]byte, 0, correOTSendSetupSize)
+	out = append(out, s._Delta[:]...)
+	for i := range s._K_Delta {
+		out = append(out, s._K_Delta[i][:]...)
+	}
+	return out, nil
+}
+
+// UnmarshalBinary implements encoding.BinaryUnmarshaler.
+func (s *CorreOTSendSetup) UnmarshalBinary(data []byte) error {
+	if len(data) != correOTSendSetupSize {
+		return errors.New("ot: invalid length for CorreOTSendSetup")
+	}
+	data = data[copy(s._Delta[:], data):]
+	for i := range s._K_Delta {
+		data = data[copy(s._K_Delta[i][:], data):]
+	}
+	return nil
+}
+
+const correOTReceiveSetupSize = 2 * params.OTParam * params.OTBytes
+
+// MarshalBinary implements encoding.BinaryMarshaler.
+func (s *CorreOTReceiveSetup) MarshalBinary() ([]byte, error) {
+	out := make([]byte, 0, correOTReceiveSetupSize)
+	for i := range s._K_0 {
+		out = append(out, s._K_0[i][:]...)
+	}
+	for i := range s._K_1 {
+		out = append(out, s._K_1[i][:]...)
+	}
+	return out, nil
+}
+
+// UnmarshalBinary implements encoding.BinaryUnmarshaler.
+func (s *CorreOTReceiveSetup) UnmarshalBinary(data []byte) error {
+	if len(data) != correOTReceiveSetupSize {
+		return errors.New("ot: invalid length for CorreOTReceiveSetup")
+	}
+	for i := range s._K_0 {
+		data = data[copy(s._K_0[i][:], data):]
+	}
+	for i := range s._K_1 {
+		data = data[copy(s._K_1[i][:], data):]
+	}
+	return nil
+}
